@@ -12,9 +12,9 @@ ASSUMPTIONS = [
     'thorough adds a bug-hunting pass of _sanitize_user_name on a symbolic str of length <= 3 (CrossHair string model, never reported as confirmed)',
 ]
 
-MENU = ['a', 'A', None, '', 'a b', 'sum', 'if', 'a__1', '1x', '_a_', 'copy', 'col0_', 'a_b', 'A-b', 'é', 'name', 'x__0', 'class', 'a.b', 'None', 'T', '__', 'max_', '9',
+MENU = ['a', 'A', None, '', 'a b', 'sum', 'if', 'a__1', '1x', '_a_', ' 3rd', '#1 pick', '_7', 'copy', 'col0_', 'a_b', 'A-b', 'é', 'name', 'x__0', 'class', 'a.b', 'None', 'T', '__', 'max_', '9',
         'col1_', 'a__1_', 'Sum', 'a  b', 'lambda', 'shape', 'ß', 'a\tb', '_', 'c9', '0', 'x y z', 'cols', 'None_', 'import', '२']
-ML = H.cfg('menu', 24)
+ML = H.cfg('menu', 27)
 
 _OK = 'abcdefghijklmnopqrstuvwxyz0123456789_'
 
@@ -172,7 +172,7 @@ def h_rules(i: int) -> bool:
     return H.ok()
 
 
-STEPS = ['rename_column', 'rename_columns', 'view-rename', 'setattr', 'append', 'setattr-indexed', 'view-rename-second']
+STEPS = ['rename_column', 'rename_columns', 'view-rename', 'setattr', 'append', 'setattr-indexed', 'view-rename-second', 'view-alias', 'append-unnamed']
 NEW = ['zz', 'A', None, 'sum', 'a b', 'if', 'zz']
 
 
@@ -198,6 +198,13 @@ def _hist_body(idx, steps, newi):
                 acc = advertised(t)
                 col = t.cols()[1]
                 col.name = new; names[1] = new
+            elif st == 'view-alias':
+                # naming an unnamed column through a live view with Vector.alias()
+                j = [k_ for k_, nm_ in enumerate(names) if nm_ is None]
+                if not j or new is None: continue
+                t.cols()[j[0]].alias(new); names[j[0]] = new
+            elif st == 'append-unnamed':
+                t = t >> Vector([8, 9]); names.append(None)
             elif st == 'setattr':
                 acc = [n for n in advertised(t) if getattr(t, n) is t.cols()[0]]
                 if not acc: return H.fail('no accessor for column 0')
@@ -252,7 +259,7 @@ def h_symbolic_str(s: str) -> bool:
 
 def obligations(tier):
     q = tier == 'quick'
-    M = 24 if q else len(MENU)
+    M = 27 if q else len(MENU)
     obs = []
     obs.append(dict(name='rules', fn='h_rules', config={}, budget=60, bounds='_sanitize_user_name on all %d menu names vs the documented pipeline written independently' % len(MENU), smoke=[[0], [5], [6]]))
     for W in (1, 2):
